@@ -65,6 +65,11 @@ Inductive op :=
                                      1 executor_id, 2 agent_id, 4 source): as a step it is OReconnect,
                                      its answers are processed by [OAnswerBare om] *)
 | OAnswerBare (om : N)            (* one reconciliation answer that lacks the fields om is processed *)
+| OKillHeld (e : N)               (* teardown of e whose Mesos KILL calls the master HOLDS: doKillTasks has taken
+                                     the tasks of e out of the roster and sits in the first call; the
+                                     life goes on meanwhile (another environment can be deployed) *)
+| OKillRefused (ts : list N)      (* the held KILL calls fail: the tasks ts (the ACTIVE ones of the set) are put
+                                     back into the roster one by one, unlocked - and nothing else changes *)
 | OKillIds (ts : list N).         (* KillTasks with an explicit list of task ids (CleanupTasks RPC with ids,
                                      repeated teardown): ids that are stale, already gone or locked by an
                                      environment are not killable and must change nothing *)
@@ -193,6 +198,14 @@ Definition cleanup_ids (w : world) (ts : list N) : world * list call :=
        (remove_ids (map rt_id victims) (w_roster w)) (w_envs w) (w_ntask w) (w_nenv w) (w_pending w),
    map CKill ks).
 
+(* doKillTasks re-appends, task by task, what it could not kill *)
+Fixpoint readd (ts : list N) (bound : N) (ros : list rtask) : list rtask :=
+  match ts with
+  | [] => ros
+  | t :: r =>
+    readd r bound (if negb (in_roster t ros) && N.ltb t bound then ros ++ [mkR t None true] else ros)
+  end.
+
 (* CreateEnvironment = Cleanup() of everything unlocked, then the deployment *)
 Definition create (w : world) (k : N) : world * list call :=
   let '(w1, c1) := cleanup w in
@@ -307,6 +320,8 @@ Definition step (w : world) (o : op) : world * list call :=
   | OReconnectOmit _ => subscribe w
   | OAnswerBare om => answer_with w om
   | OKillIds ts => cleanup_ids w ts
+  | OKillHeld e => (fst (destroy w e false false), [])
+  | OKillRefused ts => (set_master_roster w (w_master w) (readd ts (w_ntask w) (w_roster w)), [])
   end.
 
 Fixpoint run (w : world) (ops : list op) : world * list call :=
@@ -366,10 +381,18 @@ Fixpoint insertN (x : N) (l : list N) : list N :=
   end.
 Definition sort_dedup (l : list N) : list N := fold_right insertN [] l.
 
+(* the roster is observed sorted by task id (a re-appended task sits at the end of the real roster) *)
+Fixpoint insert_ros (x : N * (bool * bool)) (l : list (N * (bool * bool))) : list (N * (bool * bool)) :=
+  match l with
+  | [] => [x]
+  | y :: r => if N.leb (fst x) (fst y) then x :: l else y :: insert_ros x r
+  end.
+Definition sort_ros (l : list (N * (bool * bool))) : list (N * (bool * bool)) := fold_right insert_ros [] l.
+
 Definition observe (w : world) (cs : list call) : obs :=
   mkObs (subs_of cs) (recs_of cs) (sort_dedup (kills_of cs))
         (map mt_id (filter mt_alive (w_master w)))
-        (map (fun r => (rt_id r, (match rt_env r with Some _ => true | None => false end, rt_active r))) (w_roster w))
+        (sort_ros (map (fun r => (rt_id r, (match rt_env r with Some _ => true | None => false end, rt_active r))) (w_roster w)))
         (Nlen (w_envs w)) (w_store w).
 
 Fixpoint hrun (w : world) (ops : list op) : list obs :=
@@ -449,7 +472,7 @@ Definition mon_op (fo tampered : bool) (id0 : N) (o : op) (before after : obs) :
          if existsb (fun t => roster_locked t (o_roster before)) (o_kills after) then 8
          else if negb (forallb (fun x => negb (fst (snd x)) || roster_has (fst x) (o_roster after)) (o_roster before)) then 9
          else 0
-       | OStart _ | ODie _ | OMesosState _ _ | OStoreSet _ | ORun _ | OLost _ | OCreateHeld _ _ =>
+       | OStart _ | ODie _ | OMesosState _ _ | OStoreSet _ | ORun _ | OLost _ | OCreateHeld _ _ | OKillRefused _ =>
          if negb (forallb (fun x => negb (fst (snd x)) || roster_has (fst x) (o_roster after)) (o_roster before)) then 9
          else 0
        | _ => 0
@@ -547,7 +570,8 @@ Definition tame (o : op) : bool :=
   | OCreate _ | OStart _ | ODestroy _ _ | ODie _ | OMesosState _ _ | OCleanup | OAnswer
   | OCreateHeld _ _ | ORun _ | OLost _ | OAnswerBare _ | OKillIds _ => true
   | ODestroyStuck _ | OStoreSet _ | OReconnect | OCrash _ _
-  | OLoseAnswers | OCrashLost _ _ | OReconnectLost | OReconnectOmit _ => false
+  | OLoseAnswers | OCrashLost _ _ | OReconnectLost | OReconnectOmit _
+  | OKillHeld _ | OKillRefused _ => false
   end.
 
 (* the next reconciliation answer makes handleMessage send KILL to a task that is in the roster,
